@@ -669,7 +669,13 @@ void BaseKillPlugin::reportKillInitiationToXattr(
   const auto reportKillHelperFunc = [this,
                                      &cgroupPath](const std::string& xattr) {
     auto prevXattrStr = getxattr(cgroupPath, xattr);
-    const int prevXattr = std::stoi(prevXattrStr != "" ? prevXattrStr : "0");
+    int prevXattr = 0;
+    try {
+      prevXattr = std::stoi(prevXattrStr != "" ? prevXattrStr : "0");
+    } catch (const std::exception&) {
+      // Not a count (user.* xattrs are writable by the cgroup's owner).
+      // Start over instead of letting the exception end the daemon.
+    }
     std::string newXattrStr = std::to_string(prevXattr + 1);
 
     if (setxattr(cgroupPath, xattr, newXattrStr)) {
@@ -688,7 +694,13 @@ void BaseKillPlugin::reportKillCompletionToXattr(
   const auto reportKillHelperFunc = [this, &cgroupPath, numProcsKilled](
                                         const std::string& xattr) {
     auto prevXattrStr = getxattr(cgroupPath, xattr);
-    const int prevXattr = std::stoi(prevXattrStr != "" ? prevXattrStr : "0");
+    int prevXattr = 0;
+    try {
+      prevXattr = std::stoi(prevXattrStr != "" ? prevXattrStr : "0");
+    } catch (const std::exception&) {
+      // Not a count (user.* xattrs are writable by the cgroup's owner).
+      // Start over instead of letting the exception end the daemon.
+    }
     std::string newXattrStr = std::to_string(prevXattr + numProcsKilled);
 
     if (setxattr(cgroupPath, xattr, newXattrStr)) {
